@@ -437,7 +437,11 @@ def c14_run(rep, rng, tier, term):
         f = g.form()
         reqs.append([7, form_wire(f)]); meta.append((f, None))
     # errors
-    bad = [('nosuchname', 'ValueError'), (-1, 'ValueError'), ('rgb(1,2)', 'ValueError'), ('rgb(zz)', 'ValueError'), ('rgb(1,2,x)', 'ValueError'),
+    bad = [('rgb()1,2,3)', 'ValueError'), ('rgb(1,2,3))', 'ValueError'), ('rgb(1,2,3])', 'ValueError'), ('rgb([1,2,3)', 'ValueError'), ('rgb((1,2,3)', 'ValueError'),
+           ('rgb((1,2,3])', 'ValueError'), ('rgb([1,2,3))', 'ValueError'), ('bg_rgb()0x102030])', 'ValueError'), ('color256()7)', 'ValueError'),
+           ('ul_colour256([7)', 'ValueError'), ('dul_color256(7])', 'ValueError'), ('rgb(1,2,3)\n', 'ValueError'), ('color256(7)\n', 'ValueError'),
+           ('rgb(0x102030)\n', 'ValueError'), ('rgb([1,2,3]', 'ValueError'), ('rgb(1,2,3', 'ValueError'), ('rgb)1,2,3(', 'ValueError'),
+           ('nosuchname', 'ValueError'), (-1, 'ValueError'), ('rgb(1,2)', 'ValueError'), ('rgb(zz)', 'ValueError'), ('rgb(1,2,x)', 'ValueError'),
            ('color256(g)', 'ValueError'), (1.5, 'TypeError'), (None, 'skip'), ({'a': 1}, 'TypeError'), (['red', 2.5], 'TypeError'), ('-3', 'ValueError'),
            ('bold;nosuch', 'ValueError'), ([[-2]], 'ValueError')]
     for f, want in bad:
@@ -946,7 +950,7 @@ def c03_replay(v, term):
 
 
 # ====================================================================== C12 (format spec) and C13
-FILLS = ['', ' ', '*', ':', '+', '-', '0', '7', 'x', '<', '^']
+FILLS = ['', ' ', '*', ':', '+', '-', '0', '7', 'x', '<', '^', '\n']
 
 
 def gen_spec(rng, n):
@@ -1055,7 +1059,7 @@ def c12fmt_run(rep, rng, tier, term):
                 viol.append({'oracle': 'C12.format.empty_string_format', 'case': payload,
                              'msg': 'format(s, %r) %s, apply_formatting(%r) on a copy gives %s' % (good, got, directive, want)})
         # outside the grammar -> ValueError
-        for bad in ('x5', '<<3<', '^5^', '+5', ' 5', 'ab<5', '5x', '<5x', '<5 ', 'a'):
+        for bad in ('x5', '<<3<', '^5^', '+5', ' 5', 'ab<5', '5x', '<5x', '<5 ', 'a', '5\n', 'x<5\n', '\n', '<\n', '\n5'):
             payload = {'history': ops, 'object': i, 'spec': bad}
             rep.count(payload, True)
             got = call(lambda: format(o, bad))
@@ -1087,7 +1091,7 @@ def c12fmt_run(rep, rng, tier, term):
                         if got != want or got2 != want:
                             viol.append({'oracle': 'C12.format', 'case': payload,
                                          'msg': 'format(%s, %r) %s / to_str %s, padding+apply on a copy gives %s' % (vname, spec, got, got2, want)})
-        for bad in ('.1', '5.1', 's', '5s', 'x<5s', '<\u0663', 'x>\u0661\u0660', '=5', '0=5', ',', '_', '5,', 'n', '#5', '05d', '5c', '<5.2', ' <5s', '\n<5', 'x5', '5x'):
+        for bad in ('.1', '5.1', 's', '5s', 'x<5s', '<\u0663', 'x>\u0661\u0660', '=5', '0=5', ',', '_', '5,', 'n', '#5', '05d', '5c', '<5.2', ' <5s', '5\n', '<5\n', 'x5', '5x'):
             payload = {'value': vname, 'spec': bad}
             rep.count(payload, True)
             got = call(lambda: format(v, bad))
@@ -1118,7 +1122,8 @@ def c13_args(rng, o):
         ('unformat_matching', (sub,), {'count': rng.choice([-1, 1])}),
         ('find_settings', (f(), a if a is not None else 0, b, rng.random() < 0.4), {}),
         ('capitalize', (), {}), ('casefold', (), {}), ('lower', (), {}), ('upper', (), {}), ('swapcase', (), {}), ('title', (), {}),
-        ('center', (w, fill), {}), ('ljust', (w, fill), {}), ('rjust', (w, fill), {}), ('zfill', (w,), {}),
+        ('center', (w, fill), ({} if rng.random() < 0.5 else {'extend_formatting': rng.random() < 0.5})), ('ljust', (w, fill), ({} if rng.random() < 0.5 else {'extend_formatting': False})),
+        ('rjust', (w, fill), ({} if rng.random() < 0.5 else {'extend_formatting': False})), ('zfill', (w,), {}),
         ('clip', (a, b), {}), ('strip', (rng.choice([None, 'a', 'ab '])), {}) if False else ('strip', (rng.choice([None, 'a', 'ab ']),), {}),
         ('lstrip', (rng.choice([None, 'a', '', base[:1] + ' ']),), {}), ('rstrip', (rng.choice([None, 'b', '', base[-1:] + ' ']),), {}),
         ('removeprefix', (rng.choice([base[:1], base[:2], '', 'zz', base, base + 'x']),), {}),
@@ -1164,6 +1169,21 @@ def c13_run(rep, rng, tier, term):
         viol.append({'oracle': 'C13.methods', 'case': {'only_AnsiString': sorted(only_a), 'only_AnsiStr': sorted(only_b)},
                      'msg': 'public methods present in one class only: %s %s' % (sorted(only_a), sorted(only_b))})
     shared = pa & pb
+    # ... with the same parameters (names, order, kinds, defaults), the in-place switch of the mutable class aside:
+    # "every method common to both classes x all arguments"
+    import inspect as _inspect
+    for name in sorted(shared):
+        fa, fb = _inspect.getattr_static(AnsiString, name), _inspect.getattr_static(AnsiStr, name)
+        fa = fa.__func__ if isinstance(fa, (staticmethod, classmethod)) else fa
+        fb = fb.__func__ if isinstance(fb, (staticmethod, classmethod)) else fb
+        if not (_inspect.isfunction(fa) and _inspect.isfunction(fb)):
+            continue
+        def shape(f):
+            return [(p.name, p.kind, p.default) for p in _inspect.signature(f).parameters.values() if p.name not in ('inplace', 'self')]
+        rep.count({'signature of': name}, True)
+        if shape(fa) != shape(fb):
+            viol.append({'oracle': 'C13.signature', 'case': {'method': name},
+                         'msg': 'AnsiString.%s%s and AnsiStr.%s%s do not take the same arguments' % (name, _inspect.signature(fa), name, _inspect.signature(fb))})
     covered = set()
     vals = impl.build_values(rng, 120 if tier == 'quick' else 5000, odd=False)
     impl.drain_unobservable()
